@@ -10,7 +10,7 @@ Specification: `Spec/Stmt.lean` (`Stmt`, `renderS`, `Stmt.toVal`, `regroup`).
 namespace PycModel.C05
 open PycModel PycModel.Spec
 
-variable {ty : String → Bool}
+variable {env : Env}
 
 theorem peel_nonlabel (fuel : Nat) (v : Val) (h : isLabelV v = false) :
     peelLabelsV fuel v = ([], [v]) := by
@@ -123,9 +123,9 @@ what the parser built, whose labelled items are *proved* to have the shape the r
 needs (`StmtSkel.svals_shaped`) - and exactly the tokens of `st` are consumed.
 Nothing is assumed about the parser; braces move the scope stack at lex time (`View.lexScopes`). -/
 theorem statements_nest_as_the_grammar_says (st : S) (hwf : WFS st) (s : PState) (rest : List Tk)
-    (hs : SeesT (fun _ => false) s (st.flat ++ rest))
+    (hs : SeesT env s (st.flat ++ rest))
     (hel : st.openIf = true → ∀ k v r, rest = (k, v) :: r → k ≠ "ELSE") (F : Nat) (hF : st.fuel ≤ F) :
-    ∃ s', run F .statement s = .ok (st.val s.idx) s' ∧ SeesT (fun _ => false) s' rest ∧ s'.idx = s.idx + st.ntoks :=
+    ∃ s', run F .statement s = .ok (st.val s.idx) s' ∧ SeesT env s' rest ∧ s'.idx = s.idx + st.ntoks :=
   parse_stmt st hwf s rest hs hel F hF
 
 open PycModel.StmtSkel PycModel.View PycModel.FullExpr in
@@ -141,7 +141,7 @@ example : ∃ s',
               mk .If (tc 4) [ParenExpr.idNode 6 "b", ParenExpr.idNode 8 "x",
                 mk .Compound (tc 11) [.list [ParenExpr.idNode 12 "y",
                   mk .While (tc 14) [ParenExpr.idNode 16 "c", mk .Break (tc 18) []]]]],
-              .none]) s' ∧ SeesT (fun _ => false) s' [] := by
+              .none]) s' ∧ (∃ env, SeesT env s' []) := by
   let st : S := .ifThen (.id "a") (.ifElse (.id "b") (.expr (.id "x"))
     (.block (.cons (.expr (.id "y")) (.cons (.while_ (.id "c") .brk) .nil))))
   have hwf : WFS st := by
@@ -153,7 +153,7 @@ example : ∃ s',
     ("RBRACE", "}")]
   obtain ⟨s', hr, hs', _⟩ := parse_stmt st hwf _ [] (by simpa [st, S.flat, SL.flat, X.flat] using hs)
     (by intro _ k v r h; cases h) 300 (by decide)
-  exact ⟨s', hr, hs'⟩
+  exact ⟨s', hr, _, hs'⟩
 
 open PycModel.StmtSkel PycModel.View PycModel.FullExpr in
 /-- non-vacuity, switch regrouping: `switch ( x ) { a ; case p : case q : b ; c ; default : d ; }`
@@ -168,7 +168,7 @@ example : ∃ s',
               mk .Compound (tc 4) [.list [ParenExpr.idNode 5 "a",
                 mk .Case (tc 7) [ParenExpr.idNode 8 "p", .list []],
                 mk .Case (tc 10) [ParenExpr.idNode 11 "q", .list [ParenExpr.idNode 13 "b", ParenExpr.idNode 15 "c"]],
-                mk .Default (tc 17) [.list [ParenExpr.idNode 19 "d"]]]]]) s' ∧ SeesT (fun _ => false) s' [] := by
+                mk .Default (tc 17) [.list [ParenExpr.idNode 19 "d"]]]]]) s' ∧ (∃ env, SeesT env s' []) := by
   let st : S := .switch_ (.id "x") (.block (.cons (.expr (.id "a"))
     (.cons (.case_ (.id "p") (.case_ (.id "q") (.expr (.id "b"))))
     (.cons (.expr (.id "c")) (.cons (.default_ (.expr (.id "d"))) .nil)))))
@@ -182,7 +182,7 @@ example : ∃ s',
     ("RBRACE", "}")]
   obtain ⟨s', hr, hs', _⟩ := parse_stmt st hwf _ [] (by simpa [st, S.flat, SL.flat, X.flat] using hs)
     (by intro _ k v r h; cases h) 300 (by decide)
-  exact ⟨s', hr, hs'⟩
+  exact ⟨s', hr, _, hs'⟩
 
 open PycModel.StmtSkel PycModel.View PycModel.FullExpr in
 /-- non-vacuity, `for` / `goto` / labels: `for ( ; i < n ; i ++ ) L : if ( a [ i ] ) goto L ;` -/
@@ -197,7 +197,7 @@ example : ∃ s',
               mk .UnaryOp (tc 7) [.str "p++", ParenExpr.idNode 7 "i"],
               mk .Label (tc 10) [.str "L",
                 mk .If (tc 12) [mk .ArrayRef (tc 14) [ParenExpr.idNode 14 "a", ParenExpr.idNode 16 "i"],
-                  mk .Goto (tc 19) [.str "L"], .none]]]) s' ∧ SeesT (fun _ => false) s' [] := by
+                  mk .Goto (tc 19) [.str "L"], .none]]]) s' ∧ (∃ env, SeesT env s' []) := by
   let st : S := .for_ none (some (.bin "LT" "<" (.id "i") (.id "n"))) (some (.post "PLUSPLUS" "++" (.id "i")))
     (.label "L" (.ifThen (.index (.id "a") (.id "i")) (.goto_ "L")))
   have hwf : WFS st := by
@@ -210,6 +210,6 @@ example : ∃ s',
     ("SEMI", ";")]
   obtain ⟨s', hr, hs', _⟩ := parse_stmt st hwf _ [] (by simpa [st, S.flat, X.flat, oflat] using hs)
     (by intro _ k v r h; cases h) 300 (by decide)
-  exact ⟨s', hr, hs'⟩
+  exact ⟨s', hr, _, hs'⟩
 
 end PycModel.C05
